@@ -734,6 +734,17 @@ theorem facts_sample_header :
     buildHeader ⟨Facts.C07.gridMagic, 0, 0⟩ (fun _ => Facts.C07.sampleChecksum) [118, 101, 114]
       Facts.C07.samplePayload = .ok Facts.C07.sampleHeader := by decide
 
+/-- a frame built by the real `frame()` is the model's frame (header, then payload) -/
+theorem facts_sample_frame :
+    frame ⟨Facts.C07.gridMagic, 0, 0⟩ (fun _ => Facts.C07.sampleChecksum) [118, 101, 114]
+      Facts.C07.samplePayload = .ok Facts.C07.sampleFrame := by decide
+
+/-- the handlers that unpack `e.args` expect as many values as every `raise` site of that class
+    supplies (otherwise the handler itself would fail before `_bump_errors`) -/
+theorem facts_exception_args :
+    [Facts.C07.argsBadMagic, Facts.C07.argsOversized, Facts.C07.argsBadChecksum].all
+      (fun a => a.2 == -1 || a.1.all (fun n => (n : Int) == a.2)) = true := by decide
+
 /-- the `except` ladder of `MessageSession._process_messages_loop`, resolved against the live
     exception classes: each of the three framing errors is caught, its handler calls
     `_bump_errors` as often as `policy` says, requests `close` iff `policy` says so, and does
